@@ -22,13 +22,13 @@ Check ==
   /\ Mark(~(SelP \subseteq Cfg), "I_SelectedInConfig", l)
   /\ Mark(SelP \subseteq Cfg /\ Cfg # inConfig', "I_Quiescent", l)
 Act ==
-  CASE Ev.ev = "route" -> RouteUpdate(ToSet(Ev.s))
+  CASE Ev.ev = "route" -> RouteUpdate(Ev.m)
     [] Ev.ev = "select" -> Select(Ev.i, Ev.c)
     [] Ev.ev = "commit" -> Commit(Ev.i)
     [] Ev.ev = "commit_again" -> CommitAgain(Ev.i)
 Step ==
   CASE Ev.ev = "reset" ->
-         /\ route' = {} /\ ref' = [c \in Clusters |-> 0] /\ active' = {} /\ inConfig' = {}
+         /\ route' = {} /\ mult' = [c \in Clusters |-> 0] /\ ref' = [c \in Clusters |-> 0] /\ active' = {} /\ inConfig' = {}
          /\ rpc' = [i \in RPCs |-> 0] /\ dirty' = FALSE /\ ncommit' = [i \in RPCs |-> 0] /\ off' = FALSE
     [] Ev.ev = "panic" -> Mark(TRUE, "I_NoPanic", l) /\ off' = TRUE /\ UNCHANGED cvars
     [] OTHER ->
